@@ -70,7 +70,7 @@ func TestC20(t *testing.T) {
 	// ---------- (1) make-iso ----------
 	maxNodes := 2
 	if r.Thorough() {
-		maxNodes = 3
+		maxNodes = 4
 	}
 	mkCase := func(desc string, ps3 bool, build func(dir string)) {
 		idx++
